@@ -20,6 +20,8 @@ PLAN = {
     "yajilin": {"quick": [(2, 2, 120), (2, 3, 100), (3, 2, 60), (3, 3, 60)], "thorough": [(2, 2, 0), (2, 3, 6000), (3, 2, 3000), (3, 3, 2000)]},
     "simpleloop": {"quick": [(2, 2, 0), (2, 3, 120), (3, 3, 100)], "thorough": [(2, 2, 0), (2, 3, 0), (3, 2, 0), (3, 3, 0), (3, 4, 2000)]},
     "nurikabe": {"quick": [(1, 1, 0), (1, 3, 0), (3, 1, 0), (2, 3, 100), (3, 3, 80)], "thorough": [(1, 1, 0), (1, 3, 0), (3, 1, 0), (2, 2, 0), (2, 3, 6000), (3, 2, 3000), (3, 3, 3000)]},
+    "nurikabe_low2": {"quick": [(1, 3, 0), (2, 3, 60), (3, 3, 60)], "thorough": [(1, 3, 0), (3, 1, 0), (2, 3, 3000), (3, 3, 2000)]},
+    "nurikabe_low3": {"quick": [(2, 3, 60), (3, 3, 60)], "thorough": [(1, 3, 0), (2, 3, 3000), (3, 3, 2000)]},
     "norinori": {"quick": [(1, 3, 0), (2, 2, 0), (2, 3, 0), (3, 3, 120)], "thorough": [(1, 3, 0), (3, 1, 0), (2, 2, 0), (2, 3, 0), (3, 2, 0), (3, 3, 0), (2, 4, 0)]},
     "akari": {"quick": [(1, 3, 0), (3, 1, 0), (2, 3, 120), (3, 3, 80)], "thorough": [(1, 1, 0), (1, 3, 0), (3, 1, 0), (2, 2, 0), (2, 3, 6000), (3, 2, 3000), (3, 3, 3000)]},
     "starbattle": {"quick": [(1, 1, 0), (2, 2, 0), (3, 3, 0)], "thorough": [(1, 1, 0), (2, 2, 0), (3, 3, 0)]},
